@@ -4,7 +4,7 @@ import re
 from .. import thir, pathx
 from ..facts import strip_generics
 from ..report import Skip
-from ..throttle import feasible
+from ..throttle import feasible, eval_cond
 
 FLAGS = ("no_vcs_ignore", "no_project_ignore", "no_global_ignore", "no_default_ignore", "no_discover_ignore")
 
@@ -58,6 +58,8 @@ def run(ctx):
                       "scoped under the origin, no_global_ignore keeps entries with a scope, no_vcs_ignore keeps entries without a VCS tag), the project-VCS "
                       "filter keeps non-VCS entries and those of the project's VCS types, the git-global exclusion is applied only after a project git config "
                       "was seen; relative --ignore-file paths are resolved against the origin")
+    ctx.rule("R12.7", "--filter-file reading: every line that is neither blank nor a comment becomes one filter scoped to the file, the loop never stops early, "
+                      "and no mutable state other than the output list and the line source is carried from one line to the next")
     ctx.rule("R12.1", "independence: on every path through WatchexecFilterer::new (all values of the discovery flags) the explicit sources "
                       "--filter, --filter-file, --ignore, --exts, --fs-events reach the filterer unconditionally and --ignore-file entries reach it through "
                       "explicit_ignore_files() or dirs::ignores(); in dirs::ignores the explicit entries are appended after every flag-guarded filter, on every path")
@@ -303,6 +305,46 @@ def run(ctx):
             _, t_, e_ = pathx.if_parts(thir.peel(thir.root(rel[0])))
             okr = pathx.desc(t_) in ("Into::into(path)", "{..}") and "Path::join(^origin, path)" in pathx.desc(e_) + pathx.desc(thir.peel(e_).get("e") if isinstance(thir.peel(e_), dict) else None)
         ctx.require(okr, "R12.6", "relative-ignore-file", "a relative --ignore-file path is resolved against the project origin, an absolute one is taken as is", ig6.loc(ig6.line))
+    except Skip:
+        pass
+
+    # ---- R12.7 read_filter_file
+    try:
+        rf = body_of(ctx, "R12.7", "watchexec_cli::filterer::read_filter_file")
+        root7 = thir.root(rf)
+        loops7 = [n for n in thir.find(root7, "loop") if not n.get("x")]
+        if len(loops7) != 1:
+            ctx.violation("R12.7", "floor:line-loop", "read_filter_file no longer has exactly one line loop (found %d)" % len(loops7), rf.loc(rf.line))
+        else:
+            lp = loops7[0]
+            inside = {id(x) for x in thir.walk(lp)}
+            muts = []
+            for st in thir.walk(root7):
+                if isinstance(st, dict) and st.get("k") == "let" and st["p"].get("k") == "bind" and "Mut" in str(st["p"].get("mode")) and id(st) not in inside \
+                        and not pathx.is_tracing(st) and st["p"]["n"] not in ("iter", "interest"):
+                    muts.append(st["p"]["n"])
+            used_inside = {x.get("n") for x in thir.walk(lp) if isinstance(x, dict) and x.get("k") in ("var", "upvar")}
+            carried = sorted(set(muts) & used_inside)
+            ctx.require(set(carried) <= {"filters", "lines"}, "R12.7", "no-state-across-lines", "only the output list and the line iterator live across iterations", rf.loc(lp.get("l", rf.line)),
+                        detail=str(carried), fail="read_filter_file carries extra mutable state across lines (%s): what is left from one line (a comment, a previous pattern) leaks into the next" % carried)
+            its7 = set()
+            for q in pathx.Enum(interesting=lambda d_: strip_generics(d_).endswith("Vec::push")).paths(lp["e"]):
+                its7.add((q.ev, q.out))
+            n_push = n_skip = 0
+            for evs, out in its7:
+                pushes = [[pathx.desc(a) for a in e[2]["a"]] for e in evs if e[0] == "call"]
+                blank = any(e[0] == "branch" and eval_cond(e[1], {"str::is_empty(line)": False, "str::starts_with(line, '#')": False}) is (not e[2]) for e in evs)
+                if out in ("ret", "brk") and not any(e[0] == "iflet" for e in evs) and "from_residual" not in str(out):
+                    pass
+                if pushes:
+                    n_push += 1
+                    ctx.require(pushes == [["filters", "(ToOwned::to_owned(line), Some{0: ToOwned::to_owned(path)})"]] and out in ("val", "cont"), "R12.7", "line-becomes-filter",
+                                "a pattern line is pushed once as (line, Some(the filter file))", rf.loc(lp.get("l", rf.line)), detail=str(pushes)[:200])
+                elif out == "cont":
+                    n_skip += 1
+                    ctx.require(blank, "R12.7", "skip-only-blank-or-comment", "a line is skipped only when it is blank or a comment", rf.loc(lp.get("l", rf.line)),
+                                detail=pathx.show_events(evs)[:200])
+            ctx.require(n_push >= 1 and n_skip >= 1, "R12.7", "both-line-classes", "pattern lines and skipped lines both occur", rf.loc(rf.line))
     except Skip:
         pass
 
